@@ -13,7 +13,8 @@ EXTENDS UrlInvariants
 CONSTANTS NH,     \* number of handles
           Dev,    \* [ImplQueryEscape : BOOLEAN, EmptyListKeepsQueryMark : BOOLEAN, SkipEquals : BOOLEAN]
           WithRT, \* BOOLEAN: expected states carry the expected result of re-parsing their serialization (C03)
-          WithLaw \* BOOLEAN: expected states carry the codec law "parse(serialize(list)) = list" for the library's serializer (C11)
+          WithLaw,\* BOOLEAN: expected states carry the codec law "parse(serialize(list)) = list" for the library's serializer (C11)
+          POpts   \* the parser option record every handle's parser was built with (DefaultOpts = the standard)
 
 Handles == 1..NH
 DevStd == [ImplQueryEscape |-> FALSE, EmptyListKeepsQueryMark |-> FALSE, SkipEquals |-> FALSE]
@@ -37,24 +38,25 @@ SerQImplO(o, skipEq, l) ==
   IF l = <<>> THEN <<>>
   ELSE ImplEsc(o, l[1][1]) \o (IF skipEq /\ l[1][2] = <<>> THEN <<>> ELSE <<61>>) \o ImplEsc(o, l[1][2])
        \o (IF Len(l) > 1 THEN <<38>> \o SerQImplO(o, skipEq, Tail(l)) ELSE <<>>)
-SerList(l) == IF Dev.ImplQueryEscape THEN SerQImplO(DefaultOpts, Dev.SkipEquals, l) ELSE SerQ(l)
+SerList(l) == IF Dev.ImplQueryEscape THEN SerQImplO(POpts, Dev.SkipEquals, l) ELSE SerQ(l)
 UpdateSteps(l, q) == LET s == SerList(l) IN
                      IF s # <<>> THEN Some(s)
                      ELSE IF Dev.EmptyListKeepsQueryMark /\ q # None THEN Some(<<>>) ELSE None
 
 (* ---- expected observable state of a handle (what the harness compares) ---- *)
-Reparse(u) == LET r == Parse(Href(u, FALSE), None, None) IN
-              [same |-> r.res = "ok" /\ r.u = u, fail |-> r.res # "ok", g |-> Getters(IF r.res = "ok" THEN r.u ELSE EmptyUrl)]
+PGetters(u) == GettersO(POpts, u)
+Reparse(u) == LET r == ParseO(Href(u, FALSE), None, None, POpts) IN
+              [same |-> r.res = "ok" /\ r.u = u, fail |-> r.res # "ok", g |-> PGetters(IF r.res = "ok" THEN r.u ELSE EmptyUrl)]
 (* the codec law of C11 for the serializer the library uses, and the spec-evaluated characterisation of finding
    F03 (a name or value containing one of the delimiter characters % & + = that the serializer leaves unescaped) *)
 HasDelim(s) == \E i \in 1..Len(s) : s[i] \in {37, 38, 43, 61}
 HasDelims(l) == \E i \in 1..Len(l) : HasDelim(l[i][1]) \/ HasDelim(l[i][2])
-LawOf(l) == [faithful |-> ParseQ(SerQImplO(DefaultOpts, Dev.SkipEquals, l)) = l, delims |-> HasDelims(l)]
+LawOf(l) == [faithful |-> ParseQ(SerQImplO(POpts, Dev.SkipEquals, l)) = l, delims |-> HasDelims(l)]
 (* the same with the IDNA answer supplied (trace validation: the oracle is assumed idempotent on its own output) *)
-ReparseI(u, idna) == LET r == Parse(Href(u, FALSE), None, idna) IN
-              [same |-> r.res = "ok" /\ r.u = u, fail |-> r.res # "ok", g |-> Getters(IF r.res = "ok" THEN r.u ELSE EmptyUrl)]
+ReparseI(u, idna) == LET r == ParseO(Href(u, FALSE), None, idna, POpts) IN
+              [same |-> r.res = "ok" /\ r.u = u, fail |-> r.res # "ok", g |-> PGetters(IF r.res = "ok" THEN r.u ELSE EmptyUrl)]
 ObsOf(o) == IF ~o.live THEN [live |-> FALSE]
-            ELSE [live |-> TRUE, g |-> Getters(o.u), p |-> o.params]
+            ELSE [live |-> TRUE, g |-> PGetters(o.u), p |-> o.params]
                  @@ (IF WithRT THEN [rt |-> Reparse(o.u)] ELSE <<>>)
                  @@ (IF WithLaw THEN [law |-> LawOf(o.params)] ELSE <<>>)
 ObsAll(os) == [h \in Handles |-> ObsOf(os[h])]
@@ -67,10 +69,10 @@ Log(op, h, hb, n, a, b, fail, os) == hist' = Append(hist, StepRec(op, h, hb, n, 
 (* ---- the effect of each public call as a function on the handle table (shared by the actions below and by the
         trace specification Trace_Api.tla, which supplies the IDNA answer inferred from the log) ---- *)
 ParseInto(os, h, in, base, idna) ==
-  LET r == Parse(in, base, idna) IN
+  LET r == ParseO(in, base, idna, POpts) IN
   [os |-> IF r.res = "ok" THEN [os EXCEPT ![h] = Obj(r.u)] ELSE os, fail |-> r.res # "ok", asked |-> r.asked]
 SetterOn(os, h, op, v, idna) ==
-  LET u2 == Apply(os[h].u, op, v, idna) IN
+  LET u2 == ApplyO(POpts, os[h].u, op, v, idna) IN
   [os EXCEPT ![h].u = u2, ![h].params = IF op = "search" THEN ListOf(u2) ELSE @]
 SPOn(os, h, op, n, v) ==
   LET l2 == ListOp(os[h].params, op, n, v) IN
@@ -118,8 +120,9 @@ Reader(h, op, n) ==
                                                         [] op = "has" -> IF LHas(objs[h].params, Ingest(n)) THEN << <<>> >> ELSE <<>>])
 
 (* ---- invariants (state) ---- *)
-AllWellFormed == \A h \in Live : WellFormed(objs[h].u) /\ ComponentsOk(objs[h].u)
-AllGettersOk == \A h \in Live : LET g == Getters(objs[h].u)  u == objs[h].u IN
+AllWellFormed == \A h \in Live : WellFormedO(POpts, objs[h].u) /\ ComponentsOkO(POpts, objs[h].u)
+(* the getter-value predicates assume the default special-scheme table; they are used in default-option families only *)
+AllGettersOk == \A h \in Live : LET g == PGetters(objs[h].u)  u == objs[h].u IN
                   WellFormedG(g) /\ DerivedG(g) /\ CompositionG(g, u.host = None, u.query = None, u.frag = None) /\ CompositionPublicG(g)
 (* C12: the list is the urlencoded parse of the query, in every reachable state *)
 QueryText(u) == IF u.query = None THEN <<>> ELSE Get(u.query)
@@ -129,8 +132,8 @@ ListRoundTrip == \A h \in Live : ParseQ(SerQ(objs[h].params)) = objs[h].params
 (* the same law for the serializer the library uses; where it fails is finding F-C11-serializer *)
 ImplSerializerFaithful(l) == ParseQ(SerQImplO(DefaultOpts, FALSE, l)) = l
 (* C03: serialize-then-parse, or one of the standard's own exceptions *)
-StdRoundTripFails(u) == ~RoundTrip(u)
-RoundTripAll == \A h \in Live : RoundTrip(objs[h].u)
+StdRoundTripFails(u) == ~RoundTripO(POpts, u)
+RoundTripAll == \A h \in Live : RoundTripO(POpts, objs[h].u)
 
 (* ---- action properties ---- *)
 (* C13: an action changes at most the handle it acts on / creates *)
